@@ -220,7 +220,7 @@ def build():
     v.rewrite_re('R6', r'let prover_index_by_type: TypeIndex = self\s*\.non_primitive_provers\s*\.iter\(\)\s*\.enumerate\(\)\s*\.map\(\|\(i, p\)\| \(p\.op_type\(\), i\)\)\s*\.collect\(\);',
                  'let prover_index_by_type: TypeIndex = TypeIndex::build(&self.non_primitive_provers);', min_count=1)
     v.rewrite_re('R11', r'proof\.rows\[PrimitiveTable::(\w+)\]', r'proof.rows.at(PrimitiveTable::\1)', min_count=3)
-    v.rewrite_re('R6', r'pvs\.resize_with\(NUM_PRIMITIVE_TABLES, Vec::new\);', 'resize_with_new(&mut pvs, NUM_PRIMITIVE_TABLES);', min_count=1)
+    v.rewrite_re('R6', r'pvs\.resize_with\(NUM_PRIMITIVE_TABLES, Vec::new\);', 'resize_with_new(&mut pvs, NUM_PRIMITIVE_TABLES);', min_count=0)
     v.rewrite_re('R5', r'for entry in &proof\.non_primitives \{', 'for e_ in 0..proof.non_primitives.len() { let entry = &proof.non_primitives[e_];', min_count=1)
     v.rewrite_re('R6', r'let pi = \*prover_index_by_type\.get\(&entry\.op_type\)\.ok_or_else\(\|\| \{.*?\}\)\?;',
                  'let pi = match prover_index_by_type.get(&entry.op_type) { Some(p_) => *p_, None => { return Err(BatchStarkProverError::Verify(errmsg())); } };',
@@ -246,10 +246,8 @@ def build():
     LOOP = 'for e_ in 0..proof.non_primitives.len()'
     v.after('let pi = match prover_index_by_type.get(&entry.op_type) { Some(p_) => *p_, None => { return Err(BatchStarkProverError::Verify(errmsg())); } };',
             ' proof { lemma_index_in_range(ps, entry.op_type); }')
-    v.at_loop_end(LOOP, '''proof {
-                let j = e_ as int;
-                assert(*entry == proof.non_primitives@[j]);
-                assert(airs@ =~= prim_airs::<D>(*proof, reduction) + self.dyn_airs::<D>(*proof, j + 1)); // @@A:air_of_each_entry_is_the_registered_plugins_reading_of_that_entry
+    PVS_IN_LOOP = 'pvs.push(' in v.body      # the per-table public values are collected inside the entry loop (absent => only the postcondition speaks about them)
+    PVS_END = '''
                 assert(pvs@[pvs@.len() - 1]@ =~= entry.public_values@);
                 assert(pvs@.len() == pvs_b.len() + 1 && pvs_b.len() == 3 + j) by { assert(pvs_view(pvs_b).len() == (empty3() + BatchStarkProver::dyn_pvs(*proof, j)).len()); }
                 assert forall|i: int| 0 <= i < pvs@.len() implies #[trigger] pvs_view(pvs@)[i] == (empty3() + BatchStarkProver::dyn_pvs(*proof, j + 1))[i] by {
@@ -259,17 +257,23 @@ def build():
                     }
                 }
                 assert(pvs_view(pvs@) =~= empty3() + BatchStarkProver::dyn_pvs(*proof, j + 1)); // @@A:public_values_listed_per_table_in_order
+''' if PVS_IN_LOOP else ''
+    v.at_loop_end(LOOP, '''proof {
+                let j = e_ as int;
+                assert(*entry == proof.non_primitives@[j]);
+                assert(airs@ =~= prim_airs::<D>(*proof, reduction) + self.dyn_airs::<D>(*proof, j + 1)); // @@A:air_of_each_entry_is_the_registered_plugins_reading_of_that_entry''' + PVS_END + '''
             }''')
-    v.after(LOOP + ' { let entry = &proof.non_primitives[e_];', ' let ghost pvs_b = pvs@;')
+    if PVS_IN_LOOP:
+        v.after(LOOP + ' { let entry = &proof.non_primitives[e_];', ' let ghost pvs_b = pvs@;')
     v.loop(LOOP, invariants=[
         ('ctx', f'ps == self.non_primitive_provers@ && prover_index_by_type.m@ == sp_index(ps) && Some(reduction) == {RED}'),
         ('airs_so_far', 'airs@ == prim_airs::<D>(*proof, reduction) + self.dyn_airs::<D>(*proof, e_ as int)'),
-        ('pvs_so_far', 'pvs_view(pvs@) == empty3() + BatchStarkProver::dyn_pvs(*proof, e_ as int)'),
+    ] + ([('pvs_so_far', 'pvs_view(pvs@) == empty3() + BatchStarkProver::dyn_pvs(*proof, e_ as int)')] if PVS_IN_LOOP else []) + [
         ('entries_so_far', 'self.entries_ok::<D>(*proof, e_ as int)'),
     ])
     v.before(LOOP, '''proof {
             assert(airs@ =~= prim_airs::<D>(*proof, reduction) + self.dyn_airs::<D>(*proof, 0)); // @@A:primitive_airs_rebuilt_from_rows_packing_and_verifier_reduction
-            assert(pvs_view(pvs@) =~= empty3() + BatchStarkProver::dyn_pvs(*proof, 0));
+''' + ('            assert(pvs_view(pvs@) =~= empty3() + BatchStarkProver::dyn_pvs(*proof, 0));' if PVS_IN_LOOP else '') + '''
         }''')
     # the generated lookups loop
     v.loop('for q_ in 0..airs.len()', invariants=[
